@@ -61,6 +61,8 @@ FUNCTIONS = list(_s.FUNCTIONS) + [
         # no undefined float -> integer conversion for any double (NaN and infinities included); accepted exactly for [0, 1]
         ensures (vs_exc == 0) == (f >= 0.0 && f <= 1.0)
         ensures vs_exc == 0 ==> RET.val_ <= 100
+        # the quality is the hundredth nearest to f (C18: a written q=0.29 reads back as 29, not 28)
+        ensures vs_exc == 0 ==> ((double)RET.val_ - f * 100.0 <= 0.5 && f * 100.0 - (double)RET.val_ <= 0.5)
         ensures vs_exc == 0 || vs_exc == VS_EXC_RUNTIME_ERROR"""},
     {'q': 'Pistache::Http::Mime::MediaType::parseRaw', 'hoist_all': True, 'contract': """
         requires FRESH(this, sizeof(*this)) && len <= MAXLEN && FRESH(str, len) && vs_exc == 0 && (this->q_.has ==> this->q_.val <= 100)
@@ -81,7 +83,8 @@ FUNCTIONS = list(_s.FUNCTIONS) + [
 ADV = 'Pistache_StreamCursor_advance'
 PROOFS = [
     {'name': 'Q_ctor', 'enforce': 'Pistache_Http_Mime_Q_ctor', 'props': ['C18']},
-    {'name': 'Q_fromFloat', 'enforce': 'Pistache_Http_Mime_Q_fromFloat', 'props': ['C18', 'C03'], 'flags': ['--conversion-check', '--float-overflow-check', '--nan-check']},
+    {'name': 'Q_fromFloat', 'enforce': 'Pistache_Http_Mime_Q_fromFloat', 'props': ['C18', 'C03'], 'flags': ['--conversion-check', '--float-overflow-check', '--nan-check'],
+     'replay': {'driver': 'qfloat', 'argv': ['$f'], 'link': False}},
     {'name': 'MediaType_parseRaw', 'enforce': 'Pistache_Http_Mime_MediaType_parseRaw', 'loops': 'contracts', 'props': ['C18', 'C03'], 'cost': 60, 'timeout': 1200, 'object_bits': 11, 'mem_gb': 24, 'defs': ['-DVS_LIGHT'],
      'harness': 'void h_MediaType_parseRaw(void) { struct Pistache_Http_Mime_MediaType *a0; char *a1; size_t a2; Pistache_Http_Mime_MediaType_parseRaw(a0, a1, a2); }\n',
      'replace': [ADV, 'Pistache_match_string', 'Pistache_match_literal', 'Pistache_match_raw', 'Pistache_match_until_il', 'Pistache_match_until_c', 'Pistache_match_double', 'Pistache_Http_Mime_Q_fromFloat']},
